@@ -444,3 +444,65 @@ def rule_damping_order(ctx):
     # nested function walk visits inner calls twice (outer + inner scope): obligations are deduplicated by the framework keys
     r.floor(n, 4, "damping calls")
     return r
+
+
+def rule_dual_refresh(ctx):
+    r = RuleResult(
+        "dual-refresh",
+        "D2BP keeps, per tensor, the conjugate tensor and pre-built contraction expressions (tensor_dual_map, exprs): on "
+        "every path through a method that rewrites tensors of self.tn in place (a gate_ on the network or on a view of it), a "
+        "call of _init_tid / _initialize_contract_expressions follows before the method exits — path analysis over "
+        "{clean, dirty}; an exit in the dirty state leaves the messages being updated against the old tensors",
+    )
+    cls = ctx.prog.cls("quimb.tensor.belief_propagation.d2bp", "D2BP")
+    n = 0
+    for name, f in sorted(cls.methods.items()):
+        if f.cls is not cls or f.is_alias or isinstance(f.node, ast.Lambda):
+            continue
+        is_w = lambda c: isinstance(c, ast.Call) and isinstance(c.func, ast.Attribute) and c.func.attr == "gate_" and not (isinstance(c.func.value, ast.Name) and c.func.value.id == "self")
+        is_r = lambda c: isinstance(c, ast.Call) and isinstance(c.func, ast.Attribute) and c.func.attr in ("_init_tid", "_initialize_contract_expressions")
+        if name not in ("gate_", "gate") or not any(is_w(c) for c in ast.walk(f.node)):
+            # gauge_insert / gauge_temp / compress gate an arbitrary network handed to them (a copy unless inplace, where compress
+            # re-initialises everything): only the method that gates the BP object's own network is a writer here
+            continue
+        n += 1
+        exits = []
+
+        def events(st):
+            ev = [(c.lineno, c.col_offset, "W" if is_w(c) else "R") for c in ast.walk(st) if is_w(c) or is_r(c)]
+            return [k for _, _, k in sorted(ev)]
+
+        def run(stmts, dirty):
+            for st in stmts:
+                if isinstance(st, ast.If):
+                    d1, d2 = run(st.body, dirty), run(st.orelse, dirty)
+                    if d1 == "EXIT" and d2 == "EXIT":
+                        return "EXIT"
+                    dirty = d2 if d1 == "EXIT" else d1 if d2 == "EXIT" else (d1 or d2)
+                    continue
+                if isinstance(st, (ast.With, ast.For, ast.While, ast.Try)):
+                    d1 = run(st.body, dirty)
+                    dirty = dirty if d1 == "EXIT" else d1
+                    continue
+                for k in events(st):
+                    dirty = (k == "W") and st.lineno or (False if k == "R" else dirty)
+                if isinstance(st, ast.Return):
+                    if dirty:
+                        exits.append((st.lineno, dirty))
+                    return "EXIT"
+                if isinstance(st, ast.Raise):
+                    return "EXIT"
+            return dirty
+
+        d = run(f.node.body, False)
+        if d not in (False, "EXIT"):
+            exits.append((f.node.end_lineno, d))
+        construct = f"D2BP.{name}"
+        if exits:
+            line, wl = exits[0]
+            r.bad(Finding("dual-refresh", construct, f"tensors are gated in place at line {wl} and the method can leave at line {line} without _init_tid / _initialize_contract_expressions: "
+                          "tensor_dual_map and the contraction expressions still describe the ungated tensor", where=f"{f.module.relpath}:{line}", operand="exit-dirty"))
+        else:
+            r.ok(construct, sample={"method": name, "refresh": "on every path after the in-place gate"})
+    r.floor(n, 1, "D2BP methods gating tensors in place")
+    return r
